@@ -39,23 +39,24 @@ type found struct {
 }
 
 type report struct {
-	Scenario    string   `json:"scenario"`
-	Family      string   `json:"family"`
-	Bound       int      `json:"bound"`
-	BoundDone   int      `json:"bound_done"`
-	Executions  int      `json:"executions"`
-	Nodes       int      `json:"nodes"`
-	Steps       int      `json:"steps"`
-	MaxPoints   int      `json:"max_points"`
-	Outcomes    int      `json:"outcomes"`
-	Exhaustive  bool     `json:"exhaustive"`
-	Cap         string   `json:"cap,omitempty"`
-	Found       []found  `json:"found,omitempty"`
-	EngineError string   `json:"engine_error,omitempty"`
-	WallS       float64  `json:"wall_s"`
-	SampleObs   []string `json:"sample_obs,omitempty"`
-	SampleTrace []string `json:"sample_trace,omitempty"`
-	OutcomeList []string `json:"outcome_list,omitempty"`
+	Scenario    string           `json:"scenario"`
+	Family      string           `json:"family"`
+	Bound       int              `json:"bound"`
+	BoundDone   int              `json:"bound_done"`
+	Executions  int              `json:"executions"`
+	Nodes       int              `json:"nodes"`
+	Steps       int              `json:"steps"`
+	MaxPoints   int              `json:"max_points"`
+	Outcomes    int              `json:"outcomes"`
+	Exhaustive  bool             `json:"exhaustive"`
+	Cap         string           `json:"cap,omitempty"`
+	Deepened    string           `json:"deepened,omitempty"`
+	Found       []found          `json:"found,omitempty"`
+	EngineError string           `json:"engine_error,omitempty"`
+	WallS       float64          `json:"wall_s"`
+	SampleObs   []string         `json:"sample_obs,omitempty"`
+	SampleTrace []string         `json:"sample_trace,omitempty"`
+	OutcomeList []string         `json:"outcome_list,omitempty"`
 	Extra       map[string]int64 `json:"extra,omitempty"`
 }
 
@@ -261,6 +262,9 @@ func main() {
 			"nodes": r.Nodes, "steps": r.Steps, "max_points": r.MaxPoints, "outcomes": r.Outcomes, "exhaustive": r.Exhaustive, "wall_s": round(r.WallS)}
 		if r.Cap != "" {
 			row["cap"] = r.Cap
+		}
+		if r.Deepened != "" {
+			row["deepened"] = r.Deepened
 		}
 		for k, v := range r.Extra {
 			row[k] = v
